@@ -280,7 +280,11 @@ fn variant_struct_name(goenv: &GlobalGoEnv, enum_name: &str, variant_name: &str)
             }
         }
     }
-    if count > 1 {
+    // A variant is a Go type of its own: it also needs its enum's name in front when a struct or
+    // an enum of the program has that name (`struct Circle`, `enum Shape { Circle(Circle) }`).
+    let names_a_type = goenv.structs().any(|(name, _)| name.0 == variant_name)
+        || goenv.enums().any(|(name, _)| name.0 == variant_name);
+    if count > 1 || names_a_type {
         format!("{}_{}", go_ident(enum_name), go_ident(variant_name))
     } else {
         go_ident(variant_name)
